@@ -151,7 +151,8 @@ def s16_extraction(ctx):
         if real != stub:
             diff = [k for k in real if real[k] != stub[k]] if isinstance(real, dict) and isinstance(stub, dict) else "raised"
             res.disagreements.append(Disagreement("S16-extraction", {"stream": "S16-extraction", "traces": lines(traces), "areas": area_rows([area]), "t": t, "kind": kind},
-                                                  stub if isinstance(stub, str) else {k: stub[k] for k in diff}, real if isinstance(real, str) else {k: real[k] for k in diff}, True,
+                                                  {k: stub[k] for k in diff} if isinstance(diff, list) else (stub if isinstance(stub, str) else "completes"),
+                                                  {k: real[k] for k in diff} if isinstance(diff, list) else (real if isinstance(real, str) else "completes"), True,
                                                   f"results differ between the spatial index and all-pairs candidates: {diff}"))
     res.samples = [{"maps": len(maps)}]
     return res
